@@ -231,3 +231,114 @@ func TestSelectOutsideExecution(t *testing.T) {
 		t.Fatal("nil channels never ready", i)
 	}
 }
+
+// a helper pool built on first use inside a sync.Once: rebuilt in every execution, its blocked helpers are
+// not a leak that taints the process, and a reply handed to the wrong caller is found
+type poolHelper struct {
+	tasks *vsched.Chan[int]
+	out   *vsched.Chan[int]
+}
+
+var (
+	poolOnce vsched.Once
+	poolIdle *vsched.Chan[*poolHelper]
+)
+
+func poolStart() {
+	poolIdle = vsched.NewChan[*poolHelper](2)
+	for i := 0; i < 2; i++ {
+		h := &poolHelper{tasks: vsched.NewChan[int](0), out: vsched.NewChan[int](1)}
+		vsched.Go(func() {
+			for v, ok := h.tasks.Recv(); ok; v, ok = h.tasks.Recv() {
+				h.out.Send(v * 10)
+				poolIdle.Send(h) // back on the idle queue before the owner has collected: the slip
+			}
+		})
+		poolIdle.Send(h)
+	}
+}
+
+func poolCall(v int) int {
+	poolOnce.Do(poolStart)
+	i, hv, _ := vsched.Select(true, poolIdle.RecvCase())
+	if i < 0 {
+		return v * 10
+	}
+	h := vsched.As(poolIdle, hv)
+	h.tasks.Send(v)
+	vsched.Yield("work")
+	return h.out.Recv1()
+}
+
+func TestOncePoolRebuiltPerExecution(t *testing.T) {
+	starts := 0
+	cfg := Config{Name: "oncepool", Bound: 3, CostAll: true, NewExec: func() (func(), func(*vsched.Exec) Verdict) {
+		res := make([]int, 3)
+		body := func() {
+			var wg vsched.WaitGroup
+			wg.Add(3)
+			for k := 0; k < 3; k++ {
+				k := k
+				vsched.Go(func() { res[k] = poolCall(k + 1); wg.Done() })
+			}
+			wg.Wait()
+		}
+		return body, func(x *vsched.Exec) Verdict {
+			starts++
+			v := Verdict{Signature: fmt.Sprint(x.Outcome, res)}
+			if x.Outcome != vsched.OutLeak || !x.LeakFromOnce {
+				v.Violation = fmt.Sprint("expected the pool's helpers left blocked (from Once), got ", x.Outcome, x.LeakFromOnce, x.Blocked)
+			} else if fmt.Sprint(res) != "[10 20 30]" {
+				v.Violation = fmt.Sprint("reply handed to the wrong caller: ", res)
+			}
+			return v
+		}
+	}}
+	st := Explore(cfg)
+	if st.ToolError != "" {
+		t.Fatal(st.ToolError)
+	}
+	if st.Found == nil || st.Execs < 3 {
+		t.Fatalf("the mix-up was not found (execs %d, found %v, capped %q)", st.Execs, st.Found, st.Capped)
+	}
+	t.Logf("execs=%d found=%s", st.Execs, st.Found.Violation)
+}
+
+// buffered channels are FIFO in every schedule: a value sent while a receiver stands at its scheduling point
+// must not overtake the values already buffered
+func TestBufferedChannelIsFIFO(t *testing.T) {
+	cfg := Config{Name: "fifo", Bound: 3, CostAll: true, NewExec: func() (func(), func(*vsched.Exec) Verdict) {
+		var got []int
+		body := func() {
+			c := vsched.NewChan[int](4)
+			c.Send(1)
+			c.Send(2)
+			var wg vsched.WaitGroup
+			wg.Add(1)
+			vsched.Go(func() { c.Send(3); wg.Done() })
+			for k := 0; k < 2; k++ {
+				// data is buffered: the select never takes its default; the concurrent send must not be handed over directly
+				if i, v, _ := vsched.Select(true, c.RecvCase()); i == 0 {
+					got = append(got, vsched.As(c, v))
+				}
+			}
+			got = append(got, c.Recv1())
+			wg.Wait()
+		}
+		return body, func(x *vsched.Exec) Verdict {
+			v := Verdict{Signature: fmt.Sprint(x.Outcome, got)}
+			if x.Outcome != vsched.OutDone || fmt.Sprint(got) != "[1 2 3]" {
+				v.Violation = fmt.Sprint("received ", got, " ", x.Outcome)
+			}
+			return v
+		}
+	}}
+	st := Explore(cfg)
+	if st.ToolError != "" {
+		t.Fatal(st.ToolError)
+	}
+	if st.Found != nil {
+		t.Fatal(st.Found.Violation)
+	}
+	t.Logf("execs=%d", st.Execs)
+}
